@@ -218,12 +218,14 @@ ADDED = {
     "C11": "Also: a timer command lost in an outage, AC status (timer flag both ways) between timer report and calls, a status "
            "reporting an unadvertised mode/fan, sensor / turbo flags reported the other way round on the same zone objects.",
     "C12": "Also: one callable in both AC subscriber sets, slow subscribers, API commands answered by the console, families of "
-           "related events at depth 4-5 (error code / text with lost replies and a write fault; timers).",
+           "related events at depth 4-5 (error code / text with lost replies and a write fault; timers), installations whose AC numbers "
+           "have a gap or do not start at 0.",
     "C13": "Also: the client transmits between segments, 1-299 s of silence between segments, streams with a damaged frame, and a subscriber that closes and re-opens the socket from inside the message callback before more frames arrive on the new connection.",
     "C14": "Also: silent console, accepted connection whose first write fails, link error loss, ten commands during the outage, a "
            "status volunteered mid-reaction, 700 s muted / silent phases and 1000 s of healthy idle time after every script, and "
            "the socket scenario of C07 explored under one clause (the last notification says connected and belongs to the live "
-           "connection).",
+           "connection), and a scripted grid in which the poll deadline falls inside an outage with up to a full retry queue "
+           "buffered just before it.",
     "C15": "Also: seven backbones (write errors, heartbeat and command parked behind a stalled stream), residual tasks/timers judged "
            "at the instant shutdown() returns, second life compared with a fresh object's over 700 s, init() again the moment "
            "shutdown() has returned and inside the same application task.",
@@ -234,7 +236,8 @@ ADDED = {
     "C18": "Also: discover() with one answer per generation at all 13x13 pairs of instants, a renamed console, a datagram with the "
            "marker but no text.",
     "C19": "Also: a control-method change the consoles never report, init() with the link dropped at each of the six steps, six "
-           "commands during outages of 0.5-31 s, an installation already in error at connect.",
+           "commands during outages of 0.5-31 s, an installation already in error at connect, shutdown() + init() of both clients "
+           "as an event of the joint histories.",
 }
 for _pid, _txt in ADDED.items():
     CHECKS[_pid]["text"] = CHECKS[_pid]["text"].rstrip() + " " + _txt
